@@ -67,9 +67,9 @@ PROPS = {
     },
     "C09": {
         "modules": ["TurnModel.Props.C09"],
-        "harnesses": ["H1", "H5", "H2"],
+        "harnesses": ["H1", "H5", "H2", "H8"],
         "view": ["consume", "frames", "framesb", "cddec", "ischan", "cin", "cnet", "m:junk", "m:unk", "trace"],
-        "alarms": ["consume-no-progress", "framer-spins", "harness-died", "inbound-blocks", "h5-setup", "attr-get-panics"],
+        "alarms": ["consume-no-progress", "framer-spins", "harness-died", "inbound-blocks", "h5-setup", "attr-get-panics", "intn-argument-wrong", "server-wedged"],
         "rule": "hostile streams through the real framer and codecs (all 2^16 declared lengths, uint16-overflow lengths 0xFFEC-0xFFFF, "
                 "random garbage of every length 0-40; every stream also read with caller buffers of 1-1600 bytes, smaller than some frames); "
                 "client side (H5): undecodable STUN, requests, foreign responses, garbage from the server and from elsewhere, ChannelData on unknown channels, "
@@ -77,7 +77,8 @@ PROPS = {
                 "the client's read loop over a stream transport is fed ChannelData and STUN frames of every extreme size (0 ... 0xFFFF, larger than its read buffer), each followed by a Binding liveness probe "
                 "(inbound-blocks otherwise); server side (H2): the full generated histories, in which well-formed STUN messages of every (method, class) pair without a handler, "
                 "unknown attributes, non-STUN bytes and oversize frames are mixed with ordinary traffic on packet and stream listeners - the server must stay up and silent on them; "
-                "attribute decoders are called on exact-capacity messages with every wrong size (attr-get-panics); "
+                "attribute decoders are called on exact-capacity messages with every wrong size (attr-get-panics); the bundled port-range generator is driven over every boundary range "
+                "(H8: an Intn argument <= 0 would panic the server inside an ordinary Allocate); "
                 "a crashed or hung harness is reported with the last flushed operation",
         "trusted_base": H1_TB,
         "assumptions": ["PARTIAL: panics inside pion/stun's decoder and the Go runtime cannot be exhibited by the Lean model; "
@@ -142,16 +143,16 @@ PROPS.update({
                    "their real existence is observed only through the simnet open/close log and the synctest bubble draining at the end of every history"]),
     "C16": dict(h2prop(["TurnModel.Props.C16"],
                        ["m:connect", "m:cbind", "pconn", "pc2p", "pp2c", "pclosec", "pclosep", "adv", "cclose", "rerr", "close", "state"],
-                       ["resp", "dial", "catt", "cclosed", "p2p", "p2c", "dclosed"], [],
+                       ["resp", "dial", "catt", "cclosed", "p2p", "p2c", "dclosed"], ["manager-blocked-by-dial", "h9-setup", "server-wedged"],
                        ["PARTIAL: io.Copy / TCP byte piping is the runtime's; byte integrity of the pipe is observed by the harness, not proved about Go",
                         "connection ids are canonicalised to first-occurrence indices (the real ids are random)"]),
-                env={"VERIF_H2_MODE": "tcp"}),
+                env={"VERIF_H2_MODE": "tcp"}, harnesses=["H2", "H9"]),
 })
 
 PROPS["C18"] = {
     "modules": ["TurnModel.Props.C18"], "gen": True,
     "harnesses": ["H9", "H4", "H11"], "view": ["slowcb", "trace"], "outs": None,
-    "alarms": ["liveness-lost", "allocation-left", "txn-completion-race", "harness-died", "data-race", "concurrent-writers-mixed", "h11-setup"],
+    "alarms": ["liveness-lost", "allocation-left", "txn-completion-race", "harness-died", "data-race", "concurrent-writers-mixed", "h11-setup", "manager-blocked-by-dial", "h9-setup", "server-wedged"],
     "rule": "regenerated obligations: xlate re-emits the lock skeleton of every function/closure touching a sync mutex (63 units, 26 lock ids), the call/guard "
             "skeleton of the request handlers and the AddPermission ordering facts from /repo's working tree on every run; the kernel re-checks balanced/guarded "
             "by decide; the translator also derives, over the static call graph, which mutexes each function may take (callee summaries) and the kernel re-checks that the resulting lock-order graph (mutex held -> mutex taken, over every path, through calls) is acyclic (lock_order_acyclic). Failing-input search / supporting run: H9 makes each lifecycle callback slow (1 s / 4 s virtual) and tears the allocation down during it by "
